@@ -201,7 +201,18 @@ func refTerm(f *fieldDef, term string) (set uint64, star, unsure bool, oc outcom
 				step = step*10 + int(st[i]-'0')
 			}
 		case allAlpha(st):
+			// a step is a number; names stand for values (range start, range end,
+			// list element) of the month and day-of-week fields only
+			for _, n := range f.names {
+				if n == strings.ToLower(st) {
+					return 0, false, false, ocRefuse, "name-as-step: " + st
+				}
+			}
 			return 0, false, false, ocRefuse, "non-numeric: step " + st
+		case wordLike(st):
+			return 0, false, false, ocRefuse, "non-numeric: step " + st
+		case len(st) > 1 && st[0] == '-' && allDigits(st[1:]):
+			return 0, false, false, ocRefuse, "out-of-range: negative step " + st
 		default:
 			return 0, false, false, ocUnspec, "step without documented meaning"
 		}
